@@ -7,6 +7,7 @@ inside the regions where the documentation defines the meaning.
 import contextlib
 import io
 import itertools
+import os
 
 import sweetpea as sp
 from sweetpea._internal.primitive import ElseLevel
